@@ -119,7 +119,7 @@ let or_line payload =
            let rf = [oas_coord f (z_of_hex rx); oas_coord f (z_of_hex ry)] in
            let hwn = n_of_hex hw in
            let hwd = oas_ucoord f hwn in
-           let ext e = if e = "f" then b64_zero else if e = "h" then hwd else oas_coord f (z_of_hex e) in
+           let ext e = if e = "fl" then b64_zero else if e = "hw" then hwd else oas_coord f (z_of_hex e) in
            let eu = ext e0 and ev = ext e1 in
            (* end type as read_oas decides it: both == 0 -> Flush (0), both == half width -> HalfWidth (2), else Extended (3) *)
            let same a b = (is_zero_bits a && is_zero_bits b) || dbl_text a = dbl_text b in
